@@ -472,9 +472,18 @@ func main() {
 	atts := 0
 	for _, dec := range []uint8{0, 8, 18, 255} {
 		for si, s := range []string{"", "S", "SYMBOL-32-BYTES-LONG-0123456789!", "a b"} {
-			for _, leftPad := range []bool{true, false} {
+			for lp := 0; lp < 6; lp++ {
+				leftPad := lp%2 == 0
 				var tid, sym, nam [32]byte
 				tid[31], tid[0] = byte(si+1), dec
+				switch lp / 2 { // token ids with a meaning of their own: all zero is the native token (ALPH), all ones
+				case 1:
+					tid = [32]byte{}
+				case 2:
+					for k := range tid {
+						tid[k] = 0xff
+					}
+				}
 				put := func(dst *[32]byte, v string) {
 					if leftPad {
 						copy(dst[32-len(v):], v)
